@@ -33,9 +33,8 @@ import (
 )
 
 const (
-	U       = 128     // bytes per body unit
-	P       = 1000000 // ids >= P only occur inside crafted bodies
-	keySkip = "skipbody-nonhead-pooled"
+	U = 128     // bytes per body unit
+	P = 1000000 // ids >= P only occur inside crafted bodies
 )
 
 // ---- case description ------------------------------------------------------------------------
@@ -87,7 +86,7 @@ type desc struct {
 	Workers  int    `json:"workers,omitempty"`
 	PerW     int    `json:"perw,omitempty"`
 	Retry    bool   `json:"retry,omitempty"`
-	Skip     bool   `json:"skip,omitempty"` // stress: some GETs are issued with resp.SkipBody (known finding class)
+	Skip     bool   `json:"skip,omitempty"` // stress: some GETs are issued with resp.SkipBody
 }
 
 // ---- rendering symbols as bytes ------------------------------------------------------------------
@@ -442,7 +441,11 @@ func runSeq(d desc) (obs [][]uint64) {
 				obs = append(obs, []uint64{99})
 				break
 			}
-			s.resp.CloseBodyStream()
+			if op.Close {
+				fasthttp.VerifC04CloseBodyStreamErr(s.resp, errors.New("scripted: passing the body on failed"))
+			} else {
+				s.resp.CloseBodyStream()
+			}
 			delete(streams, op.T)
 			obs = append(obs, pool())
 		case "clean":
@@ -495,7 +498,7 @@ func coqOp(op opD) string {
 	case "sread":
 		return hlib.App("OpStreamRead", nat(op.T), nat(op.N))
 	case "sclose":
-		return hlib.App("OpCloseStream", nat(op.T))
+		return hlib.App("OpCloseStream", nat(op.T), hlib.Bool(op.Close))
 	}
 	return "OpCleanIdle"
 }
@@ -895,7 +898,7 @@ func genSeq(r *rand.Rand) desc {
 	d := desc{Kind: "seq", Max: hlib.Pick(r, []int{0, 0, 2, 3, 4}), MaxConns: 1 + r.Intn(3), Reset: r.Intn(15) == 0, Lifo: r.Intn(2) == 0}
 	ncalls := 2 + r.Intn(7)
 	var open []int
-	skipAllowed := r.Intn(12) == 0
+	skipAllowed := r.Intn(4) == 0
 	for t := 0; t < ncalls; t++ {
 		o := optsD{Head: r.Intn(6) == 0, ReqClose: r.Intn(12) == 0, Stream: r.Intn(5) < 2, API: hlib.Pick(r, []string{"do", "do", "timeout", "deadline"})}
 		if o.Head && r.Intn(3) == 0 {
@@ -935,7 +938,7 @@ func genSeq(r *rand.Rand) desc {
 			case 1, 2:
 				d.Ops = append(d.Ops, opD{Op: "sread", T: s, N: 1 + r.Intn(6)})
 			default:
-				d.Ops = append(d.Ops, opD{Op: "sclose", T: s})
+				d.Ops = append(d.Ops, opD{Op: "sclose", T: s, Close: r.Intn(6) == 0})
 				open = append(open[:i], open[i+1:]...)
 			}
 		}
@@ -959,7 +962,7 @@ func genSeq(r *rand.Rand) desc {
 func gen(r *rand.Rand, i int) desc {
 	switch {
 	case i%40 == 7:
-		return desc{Kind: "stress", Seed: r.Int63n(1 << 30), MaxConns: 2 + r.Intn(6), Workers: 16 + r.Intn(49), PerW: 4 + r.Intn(4), Retry: r.Intn(2) == 0}
+		return desc{Kind: "stress", Seed: r.Int63n(1 << 30), MaxConns: 2 + r.Intn(6), Workers: 16 + r.Intn(49), PerW: 4 + r.Intn(4), Retry: r.Intn(2) == 0, Skip: r.Intn(2) == 0}
 	case i%40 == 23:
 		return desc{Kind: "pipe", Seed: r.Int63n(1 << 30), Workers: 8 + r.Intn(25), PerW: 4 + r.Intn(5)}
 	}
@@ -1007,6 +1010,7 @@ func corpus() []desc {
 	// ... read to the end: reused
 	add(2, 1, call(0, stream, full(crafted("len", 5, 2))), opD{Op: "sread", T: 0, N: 5}, opD{Op: "sclose", T: 0}, call(1, get, full(lenResp(1))))
 	add(2, 1, call(0, stream, full(crafted("len", 5, 2))), opD{Op: "sread", T: 0, N: 6}, opD{Op: "sclose", T: 0}, call(1, get, full(lenResp(1))))
+	add(2, 1, call(0, stream, full(lenResp(4))), opD{Op: "sread", T: 0, N: 5}, opD{Op: "sclose", T: 0, Close: true}, call(1, get, full(lenResp(1))))
 	// chunked stream: all data read but not the terminator / through EOF / early
 	add(0, 1, call(0, stream, full(chunkedResp(3))), opD{Op: "sread", T: 0, N: 3}, opD{Op: "sclose", T: 0}, call(1, get, full(lenResp(1))))
 	add(0, 1, call(0, stream, full(chunkedResp(3))), opD{Op: "sread", T: 0, N: 4}, opD{Op: "sclose", T: 0}, call(1, get, full(lenResp(1))))
@@ -1036,7 +1040,7 @@ func corpus() []desc {
 	// a crafted unit read where a head is expected never happens on a clean connection; a response that starts with garbage is an error
 	// two streams open, no free connection, clean
 	add(1, 2, call(0, stream, full(lenResp(3))), call(1, stream, full(chunkedResp(2))), call(2, get, full(lenResp(1))), opD{Op: "sread", T: 1, N: 5}, opD{Op: "sclose", T: 1}, call(3, get, full(lenResp(1))), opD{Op: "sclose", T: 0}, opD{Op: "clean"}, call(4, get, full(lenResp(1))))
-	// the known finding: resp.SkipBody on a GET leaves the body on a pooled connection; the next call gets the crafted response
+	// resp.SkipBody on a GET whose response carries a (crafted) body: the connection must be closed, or the next call gets the crafted response
 	add(0, 1, call(0, optsD{Skip: true}, full(crafted("len", 3, 0))), call(1, get, full(lenResp(1))), call(2, get, full(lenResp(1))))
 	add(0, 1, call(0, optsD{Skip: true, Stream: true}, full(crafted("len", 2, 0))), call(1, head, full(lenResp(1))), call(2, get, full(lenResp(1))))
 	// concurrent histories
@@ -1066,21 +1070,13 @@ func run(d desc) hlib.Case {
 				}
 			}
 		}
-		key := ""
-		if d.Skip {
-			key = keySkip
-		}
-		return hlib.Case{Coq: coqHist(h), Key: key, Kind: d.Kind, Size: len(h),
+		return hlib.Case{Coq: coqHist(h), Kind: d.Kind, Size: len(h),
 			Sig: fmt.Sprintf("%s/ok%d/err%d/bad%d", d.Kind, ok/8, (len(h)-ok)/8, bad)}
 	}
 	obs := runSeq(d)
 	ops := make([]string, len(d.Ops))
-	key := ""
 	for i, op := range d.Ops {
 		ops[i] = coqOp(op)
-		if op.Op == "call" && op.Opts.Skip && !op.Opts.Head {
-			key = keySkip
-		}
 	}
 	obsS := make([]string, len(obs))
 	var sig strings.Builder
@@ -1094,7 +1090,7 @@ func run(d desc) hlib.Case {
 		}
 	}
 	coq := hlib.App("C04Seq", nat(d.Max), nat(d.MaxConns), hlib.Bool(d.Reset), hlib.Bool(d.Lifo), hlib.List(ops), hlib.List(obsS))
-	return hlib.Case{Coq: coq, Key: key, Kind: "seq", Size: len(d.Ops), Sig: sig.String()}
+	return hlib.Case{Coq: coq, Kind: "seq", Size: len(d.Ops), Sig: sig.String()}
 }
 
 func main() {
@@ -1106,7 +1102,7 @@ func main() {
 		PropOK:   "prop_ok",
 		Rule: "directed corpus (keep-alive reuse, streamed bodies closed at every offset incl. exactly where a crafted response starts, chunked terminator left unread, " +
 			"in-memory streams, delayed tails, until-close bodies, HEAD/304 with Content-Length, Connection: close, MaxConnDuration, body limits, truncation, stalls, silent closes, " +
-			"write failures, MaxConns exhaustion, the SkipBody-on-GET finding) then seeded random sequential histories of 3-9 calls with random scripts and stream operations; " +
+			"write failures, MaxConns exhaustion, SkipBody on GET with a crafted body) then seeded random sequential histories of 3-9 calls with random scripts and stream operations; " +
 			"every 40th case a concurrent HostClient stress history and a PipelineClient history; non-trivial = distinct sequence of (operation, outcome, pool counts)",
 		Corpus:   corpus,
 		Gen:      gen,
